@@ -17,3 +17,7 @@ pub assume_specification<T: Clone> [<[T]>::fill] (s: &mut [T], v: T)
         final(s)@.len() == old(s)@.len(),
         forall|i: int| 0 <= i < old(s)@.len() ==> final(s)@[i] == v,
 ;
+// core::mem::take: returns the old value (std documentation); the value left behind (Default::default()) is not specified here
+pub assume_specification<T: Default> [core::mem::take::<T>] (dest: &mut T) -> (r: T)
+    ensures r == *old(dest),
+;
